@@ -6,12 +6,35 @@ Import ListNotations.
 Open Scope string_scope.
 Open Scope list_scope.
 
-Definition grp (n : string) (named : list qobj) : list qobj :=
-  filter (fun q => String.eqb (qname q) n) named.
+Definition grp (vr : variant) (k : jk) (key : string * tabs) (named : list qobj) : list qobj :=
+  filter (fun q => key_eqb (mkey vr k q) key) named.
 
-Definition merge_one (vr : variant) (fuel : nat) (k : jk) (named : list qobj) (n : string) : result qobj :=
-  bind (mk_junction vr fuel k (map qinner (grp n named)))
-       (fun sub => let m := QNamed n sub false in if tables_ok m then Ok m else Err EAssertion).
+Definition merge_one (vr : variant) (fuel : nat) (k : jk) (named : list qobj) (key : string * tabs) : result qobj :=
+  bind (mk_junction vr fuel k (map qinner (grp vr k key named)))
+       (fun sub => let m := QNamed (fst key) sub false in if tables_ok m then Ok m else Err EAssertion).
+
+(* keys: decidable equality, membership, nodup *)
+Lemma tabs_eqb_refl t : tabs_eqb t t = true.
+Proof. destruct t as [a b c]; destruct a, b, c; reflexivity. Qed.
+Lemma key_eqb_eq a b : key_eqb a b = true <-> a = b.
+Proof.
+  destruct a as [n t], b as [m u]. unfold key_eqb. simpl. split.
+  - intro H. apply andb_true_iff in H. destruct H as [H1 H2].
+    apply String.eqb_eq in H1. apply tabs_eqb_eq in H2. congruence.
+  - intro H. inversion H. subst. rewrite String.eqb_refl, tabs_eqb_refl. reflexivity.
+Qed.
+Lemma mem_key_in x l : mem_key x l = true <-> In x l.
+Proof.
+  induction l as [|y r IH]; simpl; [split; [congruence | tauto]|].
+  rewrite orb_true_iff, IH, key_eqb_eq. tauto.
+Qed.
+Lemma nodup_key_in x l : In x (nodup_key l) <-> In x l.
+Proof.
+  induction l as [|y r IH]; simpl; [tauto|].
+  destruct (mem_key y r) eqn:E.
+  - rewrite IH. apply mem_key_in in E. split; [tauto | intros [H | H]; subst; auto].
+  - simpl. rewrite IH. tauto.
+Qed.
 
 Definition finish (k : jk) (all : list qobj) : result qobj :=
   match all with [] => Ok (QJ k []) | [x] => Ok x | x :: y :: r => Ok (QJ k (x :: y :: r)) end.
@@ -21,7 +44,7 @@ Lemma mk_junction_S vr fuel k conds :
   let flat := flat_map (flatten k) conds in
   let named := filter (mergeable vr) flat in
   let others := filter (fun q => negb (mergeable vr q)) flat in
-  bind (map_result (merge_one vr fuel k named) (nodup_str (map qname named)))
+  bind (map_result (merge_one vr fuel k named) (nodup_key (map (mkey vr k) named)))
        (fun merged => finish k (dedupe (others ++ merged))).
 Proof. reflexivity. Qed.
 
@@ -30,11 +53,11 @@ Lemma merge_ok_S vr ci ct fuel k conds :
   let flat := flat_map (flatten k) conds in
   let named := filter (mergeable vr) flat in
   (negb ci || forallb (fun q => match q with QNamed _ _ inv => negb inv | _ => true end) named) &&
-  forallb (fun n =>
-             let group := map qinner (grp n named) in
+  forallb (fun key =>
+             let group := map qinner (grp vr k key named) in
              (negb ct || match k with JOr => all_same_tabs group | JAnd => true end) &&
              merge_ok vr ci ct fuel k group)
-          (nodup_str (map qname named)).
+          (nodup_key (map (mkey vr k) named)).
 Proof. reflexivity. Qed.
 
 Lemma finish_spec k all q :
@@ -49,10 +72,10 @@ Qed.
 
 Lemma merge_one_ok vr fuel k named n y :
   merge_one vr fuel k named n = Ok y ->
-  exists sub, mk_junction vr fuel k (map qinner (grp n named)) = Ok sub /\ y = QNamed n sub false.
+  exists sub, mk_junction vr fuel k (map qinner (grp vr k n named)) = Ok sub /\ y = QNamed (fst n) sub false.
 Proof.
-  unfold merge_one. destruct (mk_junction vr fuel k (map qinner (grp n named))) as [sub|e]; [|simpl; congruence].
-  unfold bind. cbv zeta. destruct (tables_ok (QNamed n sub false)); [|congruence].
+  unfold merge_one. destruct (mk_junction vr fuel k (map qinner (grp vr k n named))) as [sub|e]; [|simpl; congruence].
+  unfold bind. cbv zeta. destruct (tables_ok (QNamed (fst n) sub false)); [|congruence].
   intro H. inversion H. exists sub. auto.
 Qed.
 
@@ -77,7 +100,7 @@ Proof.
   set (flat := flat_map (flatten k) conds) in *.
   set (named := filter (mergeable vr) flat) in *.
   set (others := filter (fun q => negb (mergeable vr q)) flat) in *.
-  destruct (map_result (merge_one vr fuel k named) (nodup_str (map qname named))) as [merged|e] eqn:EM;
+  destruct (map_result (merge_one vr fuel k named) (nodup_key (map (mkey vr k) named))) as [merged|e] eqn:EM;
     simpl in H; [|congruence].
   apply finish_spec in H. destruct H as [Ht _]. rewrite Ht.
   rewrite (tabs_union_same_set _ (others ++ merged)) by (intro; apply dedupe_in).
@@ -98,22 +121,22 @@ Proof.
 Qed.
 
 (* ---------- grouping by name ---------- *)
-Lemma grouping k (H : qobj -> bool) named :
-  jsem k H named = jsem k (fun n => jsem k H (grp n named)) (nodup_str (map qname named)).
+Lemma grouping vr k (H : qobj -> bool) named :
+  jsem k H named = jsem k (fun key => jsem k H (grp vr k key named)) (nodup_key (map (mkey vr k) named)).
 Proof.
   apply eq_iff_eq_true. destruct k.
   - rewrite !jsem_and_true. split.
     + intros G n _. apply jsem_and_true. intros q Hq. apply G. unfold grp in Hq. apply filter_In in Hq. tauto.
     + intros G q Hq.
-      assert (Hn : In (qname q) (nodup_str (map qname named))).
-      { apply nodup_str_in. apply in_map. exact Hq. }
+      assert (Hn : In (mkey vr JAnd q) (nodup_key (map (mkey vr JAnd) named))).
+      { apply nodup_key_in. apply in_map. exact Hq. }
       specialize (G _ Hn). rewrite jsem_and_true in G. apply G.
-      unfold grp. apply filter_In. split; [exact Hq | apply String.eqb_refl].
+      unfold grp. apply filter_In. split; [exact Hq | apply key_eqb_eq; reflexivity].
   - rewrite !jsem_or_true. split.
-    + intros [q [Hq Hh]]. exists (qname q). split.
-      * apply nodup_str_in. apply in_map. exact Hq.
+    + intros [q [Hq Hh]]. exists (mkey vr JOr q). split.
+      * apply nodup_key_in. apply in_map. exact Hq.
       * apply jsem_or_true. exists q. split; [|exact Hh].
-        unfold grp. apply filter_In. split; [exact Hq | apply String.eqb_refl].
+        unfold grp. apply filter_In. split; [exact Hq | apply key_eqb_eq; reflexivity].
     + intros [n [_ Hg]]. apply jsem_or_true in Hg. destruct Hg as [q [Hq Hh]].
       exists q. split; [|exact Hh]. unfold grp in Hq. apply filter_In in Hq. tauto.
 Qed.
@@ -140,19 +163,26 @@ Proof.
 Qed.
 
 (* ---------- the main lemma ---------- *)
-Lemma mk_junction_sem f vr ci :
+Lemma all_same_from_common l t : (forall y, In y l -> mtabs y = t) -> all_same_tabs l = true.
+Proof.
+  destruct l as [|x r]; intro H; [reflexivity|]. simpl. apply forallb_forall. intros y Hy.
+  rewrite (H x (or_introl eq_refl)), (H y (or_intror Hy)). apply tabs_eqb_refl.
+Qed.
+
+Lemma mk_junction_sem f vr ci ct :
   (ci = true \/ fix_inverted_merge vr = true) ->
+  (ct = true \/ fix_or_tables vr = true) ->
   forall fuel k conds q,
     mk_junction vr fuel k conds = Ok q ->
-    merge_ok vr ci true fuel k conds = true ->
+    merge_ok vr ci ct fuel k conds = true ->
     forall o, wf_obj o = true -> holds f q o = jsem k (fun m => holds f m o) conds.
 Proof.
-  intro Hci. induction fuel as [|fuel IH]; intros k conds q Hq Hok o Wo; [simpl in Hq; congruence|].
+  intros Hci Hct. induction fuel as [|fuel IH]; intros k conds q Hq Hok o Wo; [simpl in Hq; congruence|].
   rewrite mk_junction_S in Hq. rewrite merge_ok_S in Hok. cbv zeta in Hq, Hok.
   set (flat := flat_map (flatten k) conds) in *.
   set (named := filter (mergeable vr) flat) in *.
   set (others := filter (fun q => negb (mergeable vr q)) flat) in *.
-  set (names := nodup_str (map qname named)) in *.
+  set (names := nodup_key (map (mkey vr k) named)) in *.
   destruct (map_result (merge_one vr fuel k named) names) as [merged|e] eqn:EM; simpl in Hq; [|congruence].
   apply finish_spec in Hq. destruct Hq as [_ Hs]. rewrite Hs. clear Hs.
   apply andb_true_iff in Hok. destruct Hok as [Hinv0 Hgroups].
@@ -171,33 +201,43 @@ Proof.
   rewrite jsem_app.
   rewrite (jsem_partition k H (mergeable vr) flat). fold named. fold others.
   f_equal.
-  rewrite (grouping k H named). fold names.
-  apply (jsem_Forall2 k (fun n y => merge_one vr fuel k named n = Ok y)).
+  rewrite (grouping vr k H named). fold names.
+  apply (jsem_Forall2 k (fun key y => merge_one vr fuel k named key = Ok y)).
   { apply map_result_ok. exact EM. }
-  intros n y Hn Hy.
+  intros key y Hn Hy.
   apply merge_one_ok in Hy. destruct Hy as [sub [Hsub Ey]]. subst y.
-  specialize (Hgroups n Hn). cbv zeta in Hgroups. simpl negb in Hgroups. simpl orb in Hgroups.
-  apply andb_true_iff in Hgroups. destruct Hgroups as [Hsame Hrec].
+  specialize (Hgroups key Hn). cbv zeta in Hgroups.
+  apply andb_true_iff in Hgroups. destruct Hgroups as [Hsame0 Hrec].
   pose proof (mk_junction_tabs vr fuel k _ sub Hsub) as Htabs.
+  set (n := fst key).
   (* the group is not empty and its members are QNamed n _ false *)
-  assert (Hne : grp n named <> []).
-  { unfold names in Hn. apply (proj1 (nodup_str_in _ _)) in Hn. apply (proj1 (in_map_iff _ _ _)) in Hn.
+  assert (Hne : grp vr k key named <> []).
+  { unfold names in Hn. apply (proj1 (nodup_key_in _ _)) in Hn. apply (proj1 (in_map_iff _ _ _)) in Hn.
     destruct Hn as [x [Ex Hx]]. intro E.
-    assert (In x (grp n named)) by (unfold grp; apply filter_In; split; [exact Hx | subst n; apply String.eqb_refl]).
+    assert (In x (grp vr k key named)) by (unfold grp; apply filter_In; split; [exact Hx | apply key_eqb_eq; exact Ex]).
     rewrite E in H0. exact H0. }
-  assert (Hmem : forall x, In x (grp n named) -> x = QNamed n (qinner x) false).
+  assert (Hmem : forall x, In x (grp vr k key named) -> x = QNamed n (qinner x) false).
   { intros x Hx. unfold grp in Hx. apply filter_In in Hx. destruct Hx as [Hx En].
-    destruct (Hinv x Hx) as [n' [i E]]. subst x. simpl in En. apply String.eqb_eq in En. subst n'. reflexivity. }
+    destruct (Hinv x Hx) as [n' [i E]]. subst x. apply key_eqb_eq in En. unfold n. rewrite <- En. reflexivity. }
+  (* in an Or-merge all members read the same tables: by the guard or by the repaired grouping *)
+  assert (Hsame : k = JOr -> all_same_tabs (map qinner (grp vr k key named)) = true).
+  { intro Ek. subst k. destruct Hct as [Hc | Hc].
+    - subst ct. simpl in Hsame0. exact Hsame0.
+    - apply (all_same_from_common _ (snd key)). intros y Hy.
+      apply (proj1 (in_map_iff _ _ _)) in Hy. destruct Hy as [x [Ex Hx]]. subst y.
+      unfold grp in Hx. apply filter_In in Hx. destruct Hx as [_ En]. apply key_eqb_eq in En.
+      rewrite <- En. unfold mkey. rewrite Hc. reflexivity. }
   unfold H at 1. rewrite holds_named by exact Wo. rewrite xorb_false_l.
   destruct (lookup n (kids o)) as [c|] eqn:EL.
   - (* the unique child called n *)
     assert (Wc : wf_obj c = true) by (eapply wf_child; eauto).
     rewrite (IH k _ sub Hsub Hrec c Wc). rewrite Htabs.
-    transitivity (jsem k (fun i => in_tabs (mtabs i) c && holds f i c) (map qinner (grp n named))).
+    transitivity (jsem k (fun i => in_tabs (mtabs i) c && holds f i c) (map qinner (grp vr k key named))).
     + destruct k.
       * rewrite jsem_and_split. f_equal. apply in_tabs_union.
-      * destruct (map qinner (grp n named)) as [|x r] eqn:Eg.
-        { exfalso. apply Hne. destruct (grp n named); [reflexivity | simpl in Eg; congruence]. }
+      * specialize (Hsame eq_refl).
+        destruct (map qinner (grp vr JOr key named)) as [|x r] eqn:Eg.
+        { exfalso. apply Hne. destruct (grp vr JOr key named); [reflexivity | simpl in Eg; congruence]. }
         destruct (all_same_tabs_union x r Hsame) as [Hu Hall]. rewrite Hu.
         rewrite <- jsem_or_factor. apply jsem_ext_in. intros y Hy. rewrite (Hall y Hy). reflexivity.
     + rewrite jsem_map. apply jsem_ext_in. intros x Hx. unfold H.
